@@ -14,7 +14,7 @@ const STR_BODIES: &[&str] = &[
 const ESC_BODIES: &[&str] = &["foo", "a+b", "module", "`x", "//", "/*", "\"q", "é", "a.b[3]", "\\", "*/", "(*"];
 const BLOCK_BODIES: &[&str] = &["", " c ", "\"", " `define Q 1 ", " `MA ", "/", " // ", " /* ", "\n", " é ", "*", "**", " \\ ", "\r\n"];
 const LINE_BODIES: &[&str] = &["", " c", " \"q", " `define Q", " `MA", " /* open", " */", " é", " \\", "/", "\r"];
-const WS: &[&str] = &[" ", "  ", "\t", "\n", "\r\n", "\r", " \n", "\n ", "\n\n", " \t ", "\n\t"];
+const WS: &[&str] = &[" ", "  ", "\t", "\n", "\r\n", "\r", " \n", "\n ", "\n\n", " \t ", "\n\t", "\x0c", " \x0c\n"];
 
 /// Well-formed directive-free text. `k1`: allow strings / escaped identifiers to be followed by blanks or comments
 /// (the trigger of known finding K1); returns (text, number of K1 trigger sites).
@@ -130,14 +130,14 @@ pub fn rc1_predict(text: &str) -> Option<String> {
                 if p >= b.len() {
                     break;
                 }
-                if b[p] == b' ' || b[p] == b'\t' {
+                if b[p] == b' ' || b[p] == b'\t' || b[p] == 0x0c {
                     let s = p;
-                    while p < b.len() && (b[p] == b' ' || b[p] == b'\t') {
+                    while p < b.len() && (b[p] == b' ' || b[p] == b'\t' || b[p] == 0x0c) {
                         p += 1;
                     }
                     again.push_str(&text[s..p]); // Space node: emitted again
                 } else if b[p] == b'\n' || b[p] == b'\r' {
-                    while p < b.len() && (b[p] == b' ' || b[p] == b'\t' || b[p] == b'\n' || b[p] == b'\r') {
+                    while p < b.len() && (b[p] == b' ' || b[p] == b'\t' || b[p] == b'\n' || b[p] == b'\r' || b[p] == 0x0c) {
                         p += 1;
                     }
                     // Newline node: not emitted again
@@ -182,7 +182,7 @@ pub fn has_k1_site(text: &str) -> bool {
     for tk in toks {
         if tk.kind == Kind::Str || tk.kind == Kind::EscIdent {
             let mut p = tk.start + tk.text.len();
-            if p < b.len() && (b[p] == b' ' || b[p] == b'\t') {
+            if p < b.len() && (b[p] == b' ' || b[p] == b'\t' || b[p] == 0x0c) {
                 return true;
             }
             while p < b.len() && (b[p] == b' ' || b[p] == b'\t' || b[p] == b'\n' || b[p] == b'\r') {
